@@ -75,6 +75,10 @@ func (s *kState) FindView(h uint64, r uint32, reason string) (*tmconsensus.Versi
 		if r < cr {
 			return nil, 0, ViewBeforeCommitting
 		}
+
+		// Same height as the committing view but a later round:
+		// that height has already been decided in an earlier round.
+		return nil, 0, ViewWrongCommit
 	}
 
 	if h < s.Committing.Height {
